@@ -32,7 +32,10 @@ try:
         importlib.import_module(m)
     path = os.path.join(tmp, "cfg.yaml")
     with open(path, "w") as f:
-        yaml.safe_dump(spec["entries"], f)
+        if spec.get("raw_yaml"):
+            f.write(spec["raw_yaml"])     # the same entries written with anchors / aliases / merge keys
+        else:
+            yaml.safe_dump(spec["entries"], f)
 
     def describe(c):
         if c is None or not hasattr(c, "name"):
